@@ -160,7 +160,9 @@ func init() {
 
 var bkGroupPoisonKinds = []string{"drop", "add", "reorder", "alter", "partial-regroup", "zero-one", "regroup-subset"}
 
-func (o *bkCommitObs) Nontrivial(s *Sim) bool { return o.groupPoisons > 0 && o.paysetVariants > 0 && o.headerVariants > 0 }
+func (o *bkCommitObs) Nontrivial(s *Sim) bool {
+	return o.groupPoisons > 0 && o.paysetVariants > 0 && o.headerVariants > 0
+}
 
 // ExtraGroups: (a) two plain singleton payments per block, so that generated blocks have independent
 // entries the payset variants can permute; (b) a correctly formed group of 2-4 payments and, BEFORE it
